@@ -368,6 +368,19 @@ def wrappers_rule(ctx, prog, an, rid="R2.5", rid_err="R2.2", versions=(5, 7, 9, 
         if not ctx.anchor(rid, path, b):
             continue
         ret = an.localx(b, 0)
+        # the wrapper may delegate to a private helper generic in the packet type (`parse_fixed::<V5>(5, packet,
+        # NetflowPacket::V5)`): instantiate its type parameters and re-target `T::parse` at the impl for that type
+        tmap = {}
+        for _, t0, c0 in b.calls():
+            if c0 is not None and c0.local and c0.kind == "Item":
+                gens = (prog.facts["bodies"].get(c0.path, {}) or {}).get("generics") or []
+                cargs = [a for a in (c0.args or []) if not str(a).startswith("'")]
+                gens = [g for g in gens if not str(g).startswith("'")]
+                if gens and len(gens) == len(cargs):
+                    tmap.update(dict(zip(gens, cargs)))
+        if tmap:
+            from ..slicer import subst_types
+            ret = an.expand(subst_types(ret, tmap, None, prog))
         okv = peel(an.expand(an.interp._through("ok", ret)))
         good = False
         why = "Ok value of the wrapper is not ParsedNetflow{remaining: copy(parser remainder), result: packet}: %s" % canon(okv)[:400]
